@@ -12,20 +12,22 @@ import (
 
 // joinRoles resolves, by effect, the functions of one join-family discipline.
 type joinRoles struct {
-	p       *Prog
-	d       *Disc
-	rt      *Routine
-	v1      bool
-	unite   bool
-	entry   *ssa.Function
-	srcs    []*RecvSite
-	loops   []*ssa.Function
-	accept  *ssa.Function
-	emitFn  *ssa.Function
-	flush   *ssa.Function
-	forward *ssa.Function
-	timeout *ssa.Function
-	key     string
+	p         *Prog
+	d         *Disc
+	rt        *Routine
+	v1        bool
+	unite     bool
+	entry     *ssa.Function
+	srcs      []*RecvSite
+	emitSites []*SendSite
+	loops     []*ssa.Function
+	accept    *ssa.Function
+	emitFn    *ssa.Function
+	flush     *ssa.Function
+	forward   *ssa.Function
+	timeout   *ssa.Function
+	key       string
+	jf        *joinFlow
 }
 
 func (jr *joinRoles) String() string {
@@ -80,10 +82,7 @@ func resolveJoin(p *Prog, name string, unite bool) (*joinRoles, error) {
 				if rs.Val != nil {
 					for _, ref := range *rs.Val.Referrers() {
 						if call, ok := ref.(*ssa.Call); ok {
-							if cal := p.Callee(call); cal != nil && p.IsProduct(cal) {
-								if jr.accept != nil && jr.accept != cal {
-									return nil, fmt.Errorf("UNDECIDED: received values are handed to different functions (%s, %s)", jr.accept.Name(), cal.Name())
-								}
+							if cal := p.Callee(call); cal != nil && p.IsProduct(cal) && jr.accept == nil {
 								jr.accept = cal
 							}
 						}
@@ -96,16 +95,17 @@ func resolveJoin(p *Prog, name string, unite bool) (*joinRoles, error) {
 		}
 		for _, ss := range p.SendSites(fn) {
 			if p.chanRole(ss.Chan) == "field:output" {
-				if jr.emitFn != nil && jr.emitFn != fn {
-					return nil, fmt.Errorf("UNDECIDED: output is written in more than one function (%s, %s)", jr.emitFn.Name(), fn.Name())
+				jr.emitSites = append(jr.emitSites, ss)
+				if jr.emitFn == nil {
+					jr.emitFn = fn
 				}
-				jr.emitFn = fn
 			}
 		}
 	}
-	if len(jr.srcs) == 0 || jr.accept == nil || jr.emitFn == nil {
-		return nil, fmt.Errorf("UNRESOLVED-ANCHOR: %s: input receive / accept function / output send not found", jr.key)
+	if len(jr.srcs) == 0 || len(jr.emitSites) == 0 {
+		return nil, fmt.Errorf("UNRESOLVED-ANCHOR: %s: input receive / output send not found in the goroutine", jr.key)
 	}
+	// the functions below are named for diagnostics only; no rule depends on them
 	ai := p.alias()
 	for _, fn := range jr.rt.Funcs {
 		for _, b := range fn.Blocks {
@@ -124,12 +124,6 @@ func resolveJoin(p *Prog, name string, unite bool) (*joinRoles, error) {
 				}
 			}
 		}
-	}
-	if jr.flush == nil {
-		return nil, fmt.Errorf("UNRESOLVED-ANCHOR: %s: no function hands the accumulation buffer to the output-writing function", jr.key)
-	}
-	if unite && jr.forward == nil {
-		return nil, fmt.Errorf("UNRESOLVED-ANCHOR: %s: no forward function for oversize slices", jr.key)
 	}
 	// timeout predicate: the call tested inside the ticker clause
 	for _, fn := range jr.loops {
@@ -459,6 +453,9 @@ func (p *Prog) modeEdge(e CondEdge) (nocopy bool, ok bool) {
 	base, neg := condOf(iff.Cond)
 	truth := (e.Succ == 0) != neg
 	s := p.Sym(base)
+	if s.Op == "param" {
+		s = p.upParam(s, 0) // the mode flag handed to a helper as an argument
+	}
 	if _, path, okp := s.FieldPath(); okp && strings.Join(path, ".") == "opts.NoCopy" {
 		return truth, true
 	}
